@@ -23,7 +23,7 @@ Record case := mkCase {
   c_re_outside : nat;          (* labels of `invalid regular expression` errors lying outside every REGEXP token *)
   c_linecol : list (bool * bool);  (* per label: its (line, column) equals the one computed from the span start with
                                       lines ending at \n only / at \n, \r\n and lone \r *)
-  c_head_ok : bool;            (* line/column of the diagnostic = its first label's = the `-->` of the rendered text *)
+  c_head_ok : bool;            (* line/column of the diagnostic = its first label's; the `-->` of the rendered text is some label's *)
   c_decl_spans : list (N * N); (* spans of the RULE_DECL nodes, parallel to c_declared *)
   c_err_labels : list (N * N)  (* label spans of the errors *)
 }.
